@@ -47,6 +47,114 @@ def run(ctx):
     ctx.floor('K-WRAP', 10)
     ctx.guard('L-CSTR', 'cstring', check_cstr, ctx, w)
     ctx.floor('L-CSTR', 6)
+    ctx.rule('I-ACC', 'a running total that positions the stream after a decoding loop is accumulated, not overwritten')
+    ctx.guard('I-ACC', 'accumulators', check_acc, ctx, w)
+    ctx.floor('I-ACC', 2)
+    ctx.rule('L-ORIGIN', 'every primitive decoder named by the struct tables resolves to its one definition')
+    ctx.guard('L-ORIGIN', 'origins', check_origin, ctx, w)
+    ctx.floor('L-ORIGIN', 20)
+
+
+def _neutral(v):
+    return (isinstance(v, ast.Constant) and not isinstance(v.value, bool) and v.value in (0, b'', '')) or \
+        (isinstance(v, (ast.List, ast.Dict)) and not (getattr(v, 'elts', None) or getattr(v, 'keys', None)))
+
+
+def overwritten_accumulators(fnode):
+    """[(name, assignment)]: a local set to a neutral element (0, '', b'', [], {}) right before a loop, assigned inside the loop from an
+    expression that does not read it (and is not a constant: a flag), and read after the loop.  The initialisation states the belief
+    "this is a running total"; the assignment contradicts it as soon as the loop runs twice (Engler et al.: contradicting beliefs)."""
+    out = []
+
+    def scan(stmts):
+        for i, st in enumerate(stmts):
+            if isinstance(st, (ast.For, ast.While)):
+                init = {}
+                for pst in stmts[:i]:
+                    if isinstance(pst, ast.Assign) and len(pst.targets) == 1 and isinstance(pst.targets[0], ast.Name) and _neutral(pst.value):
+                        init[pst.targets[0].id] = pst
+                for n in ast.walk(st):
+                    if isinstance(n, ast.Assign) and len(n.targets) == 1 and isinstance(n.targets[0], ast.Name) and n.targets[0].id in init:
+                        v = n.targets[0].id
+                        reads_self = any(isinstance(x, ast.Name) and x.id == v for x in ast.walk(n.value))
+                        used_after = any(isinstance(x, ast.Name) and x.id == v and isinstance(x.ctx, ast.Load) for a in stmts[i + 1:] for x in ast.walk(a))
+                        if not reads_self and not isinstance(n.value, ast.Constant) and not _neutral(n.value) and used_after:
+                            out.append((v, n))
+            for fld in ('body', 'orelse', 'finalbody'):
+                b = getattr(st, fld, None)
+                if isinstance(b, list) and b and isinstance(b[0], ast.stmt) and not isinstance(st, (ast.FunctionDef, ast.ClassDef)):
+                    scan(b)
+            for h in getattr(st, 'handlers', []) or []:
+                scan(h.body)
+    scan(fnode.body)
+    return out
+
+
+ACC_SAMPLE = '''
+def _parse(self, stream, context):
+    start = stream.tell()
+    skipped = 0
+    while True:
+        chunk = stream.read(64)
+        end = chunk.find(b'\\x00')
+        if end >= 0:
+            break
+        skipped = len(chunk)
+    stream.seek(start + skipped + end + 1)
+'''
+
+
+def check_acc(ctx, w):
+    # the rule expects no instance on a correct tree, so it first has to find the one in its own sample
+    hit = overwritten_accumulators(ast.parse(ACC_SAMPLE).body[0])
+    ctx.ob('I-ACC', 'built-in sample', 'the rule fires on its positive example', [v for v, n in hit] == ['skipped'], got=hit)
+    n = 0
+    for f in w.model.library_funcs():
+        if not any(f.mod.endswith(m) or ('/' + m) in f.mod for m in ('common/construct_utils.py', 'common/utils.py', 'construct/core.py', 'construct/macros.py',
+                                                                      'construct/adapters.py', 'dwarf/structs.py', 'elf/structs.py', 'dwarf/dwarf_util.py')):
+            continue
+        n += 1
+        for v, a in overwritten_accumulators(f.node):
+            ctx.ob('I-ACC', f.construct, 'running total %s' % v, False, got=U(a), line=a.lineno,
+                   msg='a counter initialised as a running total before the decoding loop is overwritten inside it: after the second iteration it '
+                       'no longer counts what was consumed, so the bytes taken differ from the length of the encoding')
+    ctx.ob('I-ACC', 'decoder modules', 'functions scanned for overwritten running totals', n > 50, sample='%d functions' % n, got=n)
+
+
+# one definition per primitive decoder: the L-* rules above vouch for these definitions; a struct table that binds the same name to
+# another implementation is decoded by code no rule has looked at
+PRIM_HOME = {
+    'ULEB128': 'common/construct_utils.py', 'SLEB128': 'common/construct_utils.py', 'ULInt24': 'common/construct_utils.py', 'UBInt24': 'common/construct_utils.py',
+    'RepeatUntilExcluding': 'common/construct_utils.py', 'StreamOffset': 'common/construct_utils.py',
+    'CString': 'construct/macros.py', 'PrefixedArray': 'construct/macros.py', 'String': 'construct/macros.py', 'Array': 'construct/macros.py',
+    'StaticField': 'construct/core.py', 'FormatField': 'construct/core.py', 'Struct': 'construct/core.py',
+}
+for _e in ('B', 'L', 'N'):
+    for _s in ('U', 'S'):
+        for _b in (8, 16, 32, 64):
+            PRIM_HOME['%s%sInt%d' % (_s, _e, _b)] = 'construct/macros.py'
+
+
+def check_origin(ctx, w):
+    defs = {}
+    for rel, tree in w.model.trees.items():
+        if not rel.startswith('elftools/'):
+            continue
+        for n in tree.body:
+            if isinstance(n, (ast.FunctionDef, ast.ClassDef)) and n.name in PRIM_HOME:
+                defs.setdefault(n.name, []).append(rel.replace('elftools/', ''))
+            elif isinstance(n, ast.Assign):
+                for t in n.targets:
+                    if isinstance(t, ast.Name) and t.id in PRIM_HOME:
+                        defs.setdefault(t.id, []).append(rel.replace('elftools/', ''))
+    for name, home in sorted(PRIM_HOME.items()):
+        got = sorted(defs.get(name, []))
+        if got == [home]:
+            ctx.ob('L-ORIGIN', 'primitive ' + name, 'defined once, in ' + home, True, sample='%s defined in %s only' % (name, home))
+        else:
+            # not a violation in itself (a second implementation may be correct): the property cannot be vouched for -> exit 2
+            ctx.error('L-ORIGIN', 'primitive ' + name, 'defined in %s (expected: %s only): a struct table may now be decoded by an implementation '
+                      'none of the decoder rules has examined' % (got, home))
 
 
 def _defaults(fn):
